@@ -144,6 +144,21 @@ def parseAccountID (s : Str) : Outcome AccountID :=
   | .ok a => .ok a
   | _ => fromBase64Url s
 
+/-! ### root package: tongo.ParseAddress (account.go) -/
+
+/-- `addressParser.ParseAddress` for strings that do not reach the DNS resolver: raw form first (bounceable), then the
+friendly form read from whatever bytes `base64.URLEncoding.DecodeString` returned — the decoding error is IGNORED, so a
+valid 48-character string followed by garbage is accepted —, 36 bytes, checksum; `Bounce` = tag bit 0x40 clear. Anything
+else without a `.` is an error; with a `.` the resolver is asked (outside the model: `err "dns"`). Result `(id, bounce)`. -/
+def parseAddress (s : Str) : Outcome (AccountID × Bool) :=
+  match fromRaw s with
+  | .ok a => .ok (a, true)
+  | _ =>
+    let b := (Base64.decodeP true (s.map mapStd)).1
+    if b.length = 36 ∧ be16 (Crc16.crc16 (b.take 34)) = b.drop 34 then
+      .ok (⟨(b.getD 1 0).signExtend 32, (b.drop 2).take 32⟩, (b.getD 0 0) &&& 0x40#8 == 0#8)
+    else if s.contains 46#8 then .err "dns" else .err "can't decode address"
+
 /-! ### JSON -/
 
 /-- MarshalJSON: the raw form as a JSON string (it contains only `-0-9a-f:`; nothing to escape) -/
